@@ -528,6 +528,9 @@ def check_c08(ctx):
     for i, ((si, ops, attempted, point, k), res) in enumerate(crashed):
         want = 'out=' + res['recovered'].hex() if res['brecovery_rc'] == 0 else 'out=CRASH'
         got = model[i] if i < len(model) else '<none>'
+        if got != want and res['nblocks'] > 16 and got.startswith('out=') and want.startswith('out=') and want != 'out=CRASH' \
+                and not got.startswith('out=ERR') and entries_multiset(bytes.fromhex(got[4:])) == entries_multiset(bytes.fromhex(want[4:])):
+            continue      # more than 16 buffers: std::sort is not stable, buffers that tie on (session, type) may come in any order
         if got != want and (si, point, k) not in prop_fail and not res.get('hyp'):
             mm += 1
             if mm <= 3:
